@@ -9,6 +9,16 @@ TRUST = ("Trusted base: CPython, Hypothesis, the reference models under lsfverif
          "'held' means held on the cases counted in the evidence file.")
 
 CHECKS = {
+    "C01": dict(
+        category="exploration",
+        technique="property-based differential testing: Hypothesis grammar-generated (machine, input, task behaviour) triples, real engine stack on a simulated broker vs an independent reference interpreter",
+        text=("Each generated state machine (Pass/Task/Choice/Wait/Succeed/Fail/Parallel/Map, filters whose order matters, Retry/Catch, STANDARD and EXPRESS) is "
+              "executed by the unmodified engine (StateEngine + EventDispatcher + TaskDispatcher + asyncio AMQP transport + REST API) on a deterministic fake broker "
+              "under the canonical FIFO schedule; terminal status, output and error name from the status-change notification and from DescribeExecution are compared "
+              "with a reference interpreter written from the States Language specification. Exploration is the right level: the property quantifies over programs x inputs."),
+        design_ref="DESIGN.md section 5 C01",
+        note="Canonical schedule only; definite paths; Cause texts not compared; outcomes the specification leaves open are skipped and counted. " + TRUST,
+    ),
     "C12": dict(
         category="exploration",
         technique="property-based testing: exhaustive small-alphabet enumeration + Hypothesis random documents, algebraic laws against a reference path model",
